@@ -138,6 +138,15 @@ def job(j):
                     mm.append("valid variables refused / errors: %r" % (resp,))
                 elif len(w.calls) != 1 or not render.strict_eq(w.calls[0][2], exp):
                     mm.append("resolver saw %r, expected %r" % (w.calls, exp))
+            # an explicit null reaches an argument that has a schema default of its own as null, not as that default
+            if k == 0 and rec["present"] and rec["v"]["t"] == "N" and not rec["refused"] and not rec["hasDefault"]:
+                st["n"] += 1
+                q3 = "query ($a: %s) { d%d(a: $a) }" % (ty, rec["ti"])
+                resp3 = w.run(q3, {"a": None, "zz": 7})
+                seen = [c[2] for c in w.calls if c[0] == "d%d" % rec["ti"]]
+                if not isinstance(resp3, dict) or resp3.get("errors") or seen != [{"a": None}]:
+                    genrun.add_viol(st["viol"], ({"kind": "var-cell", "type": ty, "refused_expected": False, "first": "explicit null for an argument with a default: resolver saw %r" % (seen,)},
+                                       {"cell": rec, "query": q3, "response": repr(resp3)[:1200]}))
             st["distinct"].add((rec["ti"], rec["hasDefault"], rec["present"], repr(rec["v"])))
             if mm and len(st["viol"]) < 400:
                 genrun.add_viol(st["viol"], ({"kind": "var-cell", "type": ty, "refused_expected": rec["refused"], "first": mm[0][:100]},
